@@ -106,7 +106,8 @@ type w1Script struct {
 // channel flavour letters (part of the channel name, "<flags>_<n>"):
 //
 //	p positioned, r recoverable (stream), c cache recovery mode, e emit presence,
-//	j emit join/leave, J push join/leave, h publishes go to history
+//	j emit join/leave, J push join/leave, h publishes go to history,
+//	M map client presence channel, U map user presence channel
 func chHas(ch string, f byte) bool {
 	i := strings.IndexByte(ch, '_')
 	if i < 0 {
@@ -214,6 +215,15 @@ type w1SimClient struct {
 	stalledAtSeq      int64
 	nextTf, nextDelta bool
 	instances         []*w1Instance
+	subCbs            []w1SubCb // invocation..return of every OnSubscribe completion callback
+	peerCloseSeq      int64     // the harness started closing the connection (peer close)
+}
+
+// w1SubCb is the interval during which the completion callback of one subscribe command
+// ran: subscribeCmd (commit, reply) and its tail (join publication, map presence).
+type w1SubCb struct {
+	Ch   string
+	A, B int64
 }
 
 type w1World struct {
@@ -642,6 +652,9 @@ func (cl *w1SimClient) runOp(op w1Op) bool {
 		cl.readerDone = true
 		cl.cmdMu.Unlock()
 		cl.w.s.Event("c%d peer close", cl.idx)
+		if cl.peerCloseSeq == 0 {
+			cl.peerCloseSeq = cl.w.next()
+		}
 		if cl.closeFn != nil {
 			_ = cl.closeFn()
 		}
@@ -695,8 +708,21 @@ func (w *w1World) subscribeOptions(ch string) SubscribeOptions {
 	if chHas(ch, 'd') {
 		o.AllowedDeltaTypes = []DeltaType{DeltaTypeFossil}
 	}
+	if chHas(ch, 'M') {
+		o.MapClientPresenceChannel = w1MapClientPresence(ch)
+	}
+	if chHas(ch, 'U') {
+		o.MapUserPresenceChannel = w1MapUserPresence(ch)
+	}
 	return o
 }
+
+// map presence channels of a stream channel (flavour letters M and U): ephemeral map
+// channels whose keys (client id / user id) are published on subscribe, refreshed by the
+// presence tick and - client keys only - removed on unsubscribe and close. The key TTL is
+// longer than any run, so a key that survives its connection stays visible to the oracle.
+func w1MapClientPresence(ch string) string { return "mcp:" + ch }
+func w1MapUserPresence(ch string) string   { return "mup:" + ch }
 
 func (w *w1World) subscribeOpts(ch string) []SubscribeOption {
 	o := w.subscribeOptions(ch)
@@ -731,6 +757,12 @@ func (w *w1World) setup() error {
 		ClientExpiredCloseDelay:         time.Duration(cfg.ExpiredDelayMs) * time.Millisecond,
 		RecoveryMaxPublicationLimit:     cfg.RecoveryMax,
 		Metrics:                         MetricsConfig{RegistererGatherer: w.reg},
+		Map: MapConfig{GetMapChannelOptions: func(ch string) MapChannelOptions {
+			if strings.HasPrefix(ch, "mcp:") || strings.HasPrefix(ch, "mup:") {
+				return MapChannelOptions{Mode: MapModeEphemeral, KeyTTL: 10 * time.Minute}
+			}
+			return MapChannelOptions{}
+		}},
 	}
 	if cfg.PresenceConc > 1 {
 		nc.clientPresenceUpdateConcurrency = cfg.PresenceConc
@@ -815,17 +847,23 @@ func (w *w1World) setup() error {
 			if fail {
 				rerr = ErrorPermissionDenied
 			}
+			run := func() {
+				cl.subCbs = append(cl.subCbs, w1SubCb{Ch: e.Channel, A: w.next()})
+				k := len(cl.subCbs) - 1
+				cb(reply, rerr)
+				cl.subCbs[k].B = w.next()
+			}
 			if delay > 0 {
 				w.pendingAsync++
 				w.s.Go(func() {
 					w.s.Sleep(time.Duration(delay) * time.Microsecond)
 					w.s.Probe("async_subscribe_cb")
-					cb(reply, rerr)
+					run()
 					w.pendingAsync--
 				})
 				return
 			}
-			cb(reply, rerr)
+			run()
 		})
 		c.OnUnsubscribe(func(e UnsubscribeEvent) { cl.cb("unsubscribe", e.Channel, e.Code) })
 		c.OnPublish(func(e PublishEvent, cb PublishCallback) {
@@ -1290,7 +1328,7 @@ func w1Run(s *simrt.Sim, script any, prop string) {
 
 var w1Flavours = map[string][]string{
 	"C04": {"_", "p_", "ej_", "r_", "d_", "_"},
-	"C05": {"_", "pe_", "ejJ_", "r_", "e_", "d_"},
+	"C05": {"_", "pe_", "ejJ_", "r_", "e_", "d_", "eM_", "MU_", "peM_"},
 	"C10": {"_", "_", "p_", "jJ_", "r_", "b_", "pb_", "jJb_"},
 	"C01": {"p_", "r_", "r_", "p_", "rf_", "pf_"},
 	"C06": {"e_", "e_", "pe_"},
